@@ -15,7 +15,12 @@ def generate(rng, tier):
     n = 700 if tier == "quick" else 15000
     cases = []
     fixed = [b"a\nbb\n", b"@\n", b"a", b"a\n", b"\n", b"", b"\n\n", b"a\n\nb", b"\xa0\n", b"@comment \xa0x\n", b"x\ny\nz", b" \n a\n", b"@name foo-1.0\n@cwd /usr/pkg\nbin/foo\n",
-             b"@ignore\n+BUILD_INFO\n", b"a\r\nb\r\n", b"@comment\n@comment \n@comment  x\n"]
+             b"@ignore\n+BUILD_INFO\n", b"a\r\nb\r\n", b"@comment\n@comment \n@comment  x\n",
+             # a byte-order mark is three ordinary bytes of the first line; NUL is an ordinary byte; arguments have no length limit
+             b"\xef\xbb\xbf@name x\nbin/a\n", b"\xef\xbb\xbf", b"\xef\xbb\xbfbin/a\n", b"\xef\xbb\xbf\n@name y\n", b"a\n\xef\xbb\xbf@name x\n", b"\xef\xbb@name x\n",
+             b"@mode \x00\n", b"@ignore\x00\n", b"@ignore \x00\n", b"\x00\x00\n", b"bin/a\x00\n", b"\x00bin/a\n", b"@name foo\x00\n",
+             b"@name " + b"n" * 255 + b"\n", b"@name " + b"n" * 256 + b"\n", b"@pkgdep " + b"{a,b}" * 60 + b">=1.0\n", b"@pkgcfl " + b"x" * 5000 + b"\n",
+             b"@blddep " + b"y" * 257 + b"\nbin/z\n", b"@cwd /" + b"d" * 300 + b"\n" + b"f" * 300 + b"\n", b"@comment " + b"c" * 1000 + b"\n"]
     texts = list(fixed)
     for _ in range(n):
         k = rng.choice([1, 2, 3, 5, 8])
